@@ -43,6 +43,15 @@ def _divide_and_round(a: float, b: float) -> int:
     return q
 
 
+def _timedelta_to_microseconds(delta: timedelta) -> int:
+    if isinstance(delta, Duration):
+        return delta._to_microseconds()
+
+    return (delta.days * SECONDS_PER_DAY + delta.seconds) * US_PER_SECOND + (
+        delta.microseconds
+    )
+
+
 class Duration(timedelta):
     """
     Replacement for the standard timedelta class.
@@ -388,9 +397,7 @@ class Duration(timedelta):
 
         usec = self._to_microseconds()
         if isinstance(other, timedelta):
-            return cast(
-                int, usec // other._to_microseconds()  # type: ignore[attr-defined]
-            )
+            return cast(int, usec // _timedelta_to_microseconds(other))
 
         if isinstance(other, int):
             return self.__class__(
@@ -415,9 +422,7 @@ class Duration(timedelta):
 
         usec = self._to_microseconds()
         if isinstance(other, timedelta):
-            return cast(
-                float, usec / other._to_microseconds()  # type: ignore[attr-defined]
-            )
+            return cast(float, usec / _timedelta_to_microseconds(other))
 
         if isinstance(other, int):
             return self.__class__(
@@ -443,7 +448,7 @@ class Duration(timedelta):
 
     def __mod__(self, other: timedelta) -> Self:
         if isinstance(other, timedelta):
-            r = self._to_microseconds() % other._to_microseconds()  # type: ignore[attr-defined] # noqa: E501
+            r = self._to_microseconds() % _timedelta_to_microseconds(other)
 
             return self.__class__(0, 0, r)
 
@@ -453,7 +458,7 @@ class Duration(timedelta):
         if isinstance(other, timedelta):
             q, r = divmod(
                 self._to_microseconds(),
-                other._to_microseconds(),  # type: ignore[attr-defined]
+                _timedelta_to_microseconds(other),
             )
 
             return q, self.__class__(0, 0, r)
